@@ -136,3 +136,73 @@ func Select(hasDefault bool, chans ...interface{}) int {
 	vs[rd[k]].Recv()
 	return rd[k]
 }
+
+// ---- select statements in their general form ----------------------------------------------------
+
+// Case is one communication clause of a rewritten select statement.
+type Case struct {
+	ch   reflect.Value
+	send bool
+}
+
+// RecvOn describes a receive clause (with or without assignment of the received value).
+func RecvOn(c interface{}) Case { return Case{ch: reflect.ValueOf(c)} }
+
+// SendOn describes a send clause.
+func SendOn(c interface{}) Case { return Case{ch: reflect.ValueOf(c), send: true} }
+
+// Native reports whether no scheduler is installed: the rewritten code then runs the original select.
+func Native() bool { return sched.Installed() == nil }
+
+// SelectReady waits (as a blocking scheduling point) until at least one clause can proceed, chooses one
+// of the ready clauses (an explorer choice point when there are several) and returns its index, or -1
+// for default. It performs no channel operation itself: the rewritten clause body starts with the
+// clause's own operation, which cannot block because no other thread runs before it.
+func SelectReady(hasDefault bool, cases ...Case) int {
+	s := sched.Installed()
+	if s == nil {
+		panic(explore.HarnessError{Msg: "vchan.SelectReady called without a scheduler"})
+	}
+	if s.IsAborting() {
+		sched.AbortNow()
+	}
+	can := func(c Case) bool {
+		if c.ch.IsNil() {
+			return false
+		}
+		if c.send {
+			if c.ch.Cap() == 0 {
+				panic(explore.HarnessError{Msg: "vchan: send on unbuffered channel in a select is not modelled"})
+			}
+			return c.ch.Len() < c.ch.Cap() || isClosed(s, c.ch)
+		}
+		return ready(s, c.ch)
+	}
+	anyReady := func() bool {
+		for _, c := range cases {
+			if can(c) {
+				return true
+			}
+		}
+		return false
+	}
+	if hasDefault {
+		s.Point("select")
+		if !anyReady() {
+			return -1
+		}
+	} else {
+		s.Block("select", anyReady)
+	}
+	var rd []int
+	for i, c := range cases {
+		if can(c) {
+			rd = append(rd, i)
+		}
+	}
+	k := 0
+	if len(rd) > 1 {
+		k = s.X.Choose("select-ready", len(rd))
+	}
+	return rd[k]
+}
